@@ -119,7 +119,10 @@ impl Space for Compiled {
     fn eval(&self, i: u64, out: &mut Out) {
         let ix = unrank(i, &[self.instants.len() as u64, self.zones.len() as u64, self.cals.len() as u64]);
         let (t, zone, cal) = (self.instants[ix[0]], self.zones[ix[1]].as_str(), self.cals[ix[2]]);
-        let tz = TimeZone::try_from_str(zone).expect("zone");
+        let Some(tz) = crate::imp::zone_of(zone) else {
+            out.unjudged += 1;
+            return;
+        };
         let calendar: Calendar = cal.parse().expect("calendar");
         let z = ZonedDateTime::try_new(t, calendar.clone(), tz.clone()).expect("zdt");
         let z2 = ZonedDateTime::try_new(self.instants[(ix[0] + 1) % self.instants.len()], calendar.clone(), tz.clone()).expect("zdt");
